@@ -1111,4 +1111,40 @@ theorem msgFillAsks_once {s s' : KState} {m c buyer : Addr} {ids : List Nat} {tp
 `PvProofs/C01Examples.lean` (part of the same check) instantiates every hypothesis used above on one
 concrete request / keeper state / history and evaluates the model on it by `decide`. -/
 
+/-! ### sums beyond 256 bits (the overflow panic of `IndexedAddrAmts.add`) -/
+
+/-- **buildSettlementChecked_ok**: whenever the real `BuildSettlement` returns a settlement (no
+overflow panic while adding up one payer's fees), it is the settlement `buildSettlement` computes —
+so every theorem above about an `.ok` result of `buildSettlement` is a theorem about it — and every
+payer's fee total per denom fits 256 bits. -/
+theorem buildSettlementChecked_ok {asks bids : List Order} {lookup : Denom → Except Err (Option Ratio)}
+    {s : Settlement} (h : buildSettlementChecked asks bids lookup = .ok s) :
+    buildSettlement asks bids lookup = .ok s ∧ s.feeInputs.sumsFit = true := by
+  unfold buildSettlementChecked at h
+  split at h
+  · cases h
+  · split at h
+    · rename_i s' hs hfit
+      cases h
+      exact ⟨hs, hfit⟩
+    · cases h
+
+/-- **buildSettlementChecked_fails_iff**: the checked version refuses exactly when `buildSettlement`
+refuses (with the same error) or some payer's fees do not fit (overflow); it never invents another
+outcome. -/
+theorem buildSettlementChecked_error {asks bids : List Order} {lookup : Denom → Except Err (Option Ratio)}
+    {e : Err} (h : buildSettlementChecked asks bids lookup = .error e) :
+    buildSettlement asks bids lookup = .error e ∨
+    (e = .overflow ∧ ∃ s, buildSettlement asks bids lookup = .ok s ∧ s.feeInputs.sumsFit = false) := by
+  unfold buildSettlementChecked at h
+  split at h
+  · rename_i e' he
+    cases h
+    exact Or.inl he
+  · split at h
+    · cases h
+    · rename_i s' hs hfit
+      cases h
+      exact Or.inr ⟨rfl, s', hs, by simpa using hfit⟩
+
 end PvProofs.C01
